@@ -286,17 +286,31 @@ def perm_loops(f):
             continue
         vid, lo, hi, step = iv
         # effective direction = loop direction x sign of the loop variable in the index of P->values[...]
-        sign = 1
-        for x in sw.walk():
+        idx_exprs = []
+        for x in list(sw.walk()) + ([] if sw.kind == 'CallExpr' else [y for a_ in body.walk() if a_.kind == 'BinaryOperator' and a_.op == '=' for y in a_.walk()]):
             if x.kind == 'ArraySubscriptExpr':
                 b = strip(x.kids[0], casts=True)
                 if b.kind == 'MemberExpr' and b.name == 'values':
-                    idx = fs.sym(x.kids[1])
-                    k = idx.t.get(fs.decl[vid].name)
-                    if k is not None and k < 0:
-                        sign = -1
+                    e = strip(x.kids[1], casts=True)
+                    # a subscript kept in a single-definition local (`j = notrans ? n - i - 1 : i`) stands for its definition
+                    for _ in range(3):
+                        if e.kind == 'DeclRefExpr' and e.refkind == 'VarDecl' and e.refid != vid:
+                            d = fs.single_def(e.refid)
+                            if d is None:
+                                break
+                            e = strip(d, casts=True)
+                    idx_exprs = [e.kids[1], e.kids[2]] if e.kind == 'ConditionalOperator' else [e]
                     break
-        out.append((lp, '+' if step * sign > 0 else '-', lo, hi, sw, fs))
+        if not idx_exprs:
+            out.append((lp, '+' if step > 0 else '-', lo, hi, sw, fs, None))
+            continue
+        for e in idx_exprs:
+            idx = fs.sym(e)
+            iname = fs.decl[vid].name
+            k = idx.t.get(iname)
+            sign = -1 if (k is not None and k < 0) else 1
+            first = idx.subst(iname, lo if step > 0 else hi - Lin(1))
+            out.append((lp, '+' if step * sign > 0 else '-', lo, hi, sw, fs, first))
     return out
 
 
@@ -310,13 +324,28 @@ def rule_F4(ctx, prog, label, rule='F4'):
         f = prog.func(name)
         loops = perm_loops(f)
         specs = want if isinstance(want, list) else [want]
-        if len(loops) < len(specs):
-            raise AnalysisBroken('F4: %s has %d permutation loops, %d expected' % (name, len(loops), len(specs)))
-        for spec, (lp, d, lo, hi, sw, fs) in zip(specs, loops):
+        if not loops:
+            raise AnalysisBroken('F4: %s has no permutation loop any more' % name)
+        used = set()
+        for spec in specs:
             rr.instances += 1
+            cand = [i for i, l_ in enumerate(loops) if i not in used and l_[1] == spec['dir']]
+            if not cand and len(specs) == 1:
+                cand = [i for i in range(len(loops)) if i not in used][:1]
+            if not cand:
+                rr.ob(False, None, Finding(rule, '%s|%s|%s' % (rule, name, spec['dir']), f.loc, name,
+                                           '%s: no loop applies the swaps in direction %s (%s); found directions %s' % (name, spec['dir'], spec['reason'], [l_[1] for l_ in loops]), {}, label))
+                continue
+            used.add(cand[0])
+            (lp, d, lo, hi, sw, fs, first) = loops[cand[0]]
             top = repr(hi) if hi is not None else None
             ok = d == spec['dir'] and top == spec['top']
             why = 'direction %s, index range up to %s' % (d, top)
+            if ok and first is not None:
+                # the first swap applied is the first (ascending) resp. the last (descending) entry of the index range
+                want_first = lo if d == '+' else hi - Lin(1) - lo
+                if not (first == want_first):
+                    ok, why = False, 'direction %s, but the first swap applied is entry %r, expected %r' % (d, first, want_first)
             if ok and spec.get('row_cap'):
                 # tri variant: the stop row passed to the swap is capped by the swap index
                 args = [pp(strip(a, casts=True)) for a in sw.kids[1:]]
